@@ -176,6 +176,9 @@ Silence(pre, fn, x) ==
          [] f \in {"Lf", "Nel"} /\ IsScrollingStep(pre, fn)
               -> EraseMarks([x EXCEPT !.col = Min2(@, x.cols - 1), !.pw = FALSE], (pre.top - 1)..pre.bottom)   \* ScrollingLfKeepsPendingWrap
          [] f \in {"Su", "Dl"} -> EraseMarks(x, ((IF f = "Su" THEN pre.top ELSE pre.row) - 1)..pre.rows)       \* PartialRegionScrollClearsWrapMark
+         [] f = "Sd" -> EraseMarks(x, {pre.top - 1, pre.bottom})                      \* marks of the rows adjacent to a scrolled range
+         [] f = "Il" -> EraseMarks(x, {pre.row - 1, IF pre.row <= pre.bottom THEN pre.bottom ELSE pre.rows - 1})
+         [] f = "Ri" /\ IsScrollingStep(pre, fn) -> EraseMarks(x, {pre.top - 1, pre.bottom})
          [] f = "Print" /\ pre.autowrap /\ pre.pw /\ pre.row = pre.bottom -> EraseMarks(x, (pre.top - 1)..pre.bottom)
          [] f = "Ech" /\ pre.col >= pre.cols -> EraseMarks(x, {pre.row})             \* EchAtWrapColumnClearsMark
          [] f = "El" /\ ((fn.a[1] = 1 /\ pre.col >= pre.cols - 1) \/ (fn.a[1] = 0 /\ pre.col >= pre.cols)) -> EraseMarks(x, {pre.row})   \* El1KeepsMark
